@@ -3,6 +3,7 @@ package main
 // a MessageStore wrapper that reports every mutation to a callback, so the session properties can see
 // resets, saves and counter changes in their order relative to callbacks and wire writes.
 import (
+	"strconv"
 	"fmt"
 	"strings"
 	"time"
@@ -35,9 +36,25 @@ func (s *logStore) say(x string) {
 	}
 }
 
+// savedSendingTime: SendingTime (52) of every message handed to the store, by SenderCompID and number: a replay's
+// OrigSendingTime (122) must equal it (C03).  Cleared with the store.
+var savedSendingTime = map[string]string{}
+
 func describeSaved(seq int, msg []byte) string {
 	k, r := "?", "y"
+	snd, st := "", ""
+	defer func() {
+		if st != "" {
+			savedSendingTime[snd+"/"+strconv.Itoa(seq)] = st
+		}
+	}()
 	for _, f := range strings.Split(string(msg), "\x01") {
+		if strings.HasPrefix(f, "49=") {
+			snd = f[3:]
+		}
+		if strings.HasPrefix(f, "52=") {
+			st = f[3:]
+		}
 		if strings.HasPrefix(f, "35=") {
 			k = f[3:]
 		}
@@ -77,6 +94,9 @@ func (s *logStore) Refresh() error {
 	return s.MessageStore.Refresh()
 }
 func (s *logStore) Reset() error {
+	for k := range savedSendingTime {
+		delete(savedSendingTime, k)
+	}
 	s.say("reset")
 	return s.MessageStore.Reset()
 }
